@@ -72,8 +72,9 @@ pub fn judge(x: i128, k: f64, div: bool, limit: i128, got: &Result<i128, Error>)
             if !band.admits_trunc(*r) {
                 return Err(format!("trunc toward zero of the real {} (within relative 2^-52)", if div { "quotient" } else { "product" }));
             }
-            // exactness: exact operand conversion + exactly representable integer result
-            if x.abs() < TWO53 {
+            // exactness is promised for multiplication only ("exactly x*k for integer k while
+            // |x*k| < 2^53"): exact operand conversion + exactly representable integer product
+            if !div && x.abs() < TWO53 {
                 for cand in [*r - 1, *r, *r + 1] {
                     if cand.abs() < TWO53 && p.cmp_int(cand) == std::cmp::Ordering::Equal && cand != *r {
                         return Err(format!("exactly {cand} (the real result is that integer and is exactly representable)"));
@@ -140,6 +141,13 @@ pub fn run(ctx: &mut Ctx) {
     tm.sort();
     tm.dedup();
     // operands that put the result next to the interval limits and next to 2^53
+    // multipliers that put the product strictly between a limit and the next integer
+    for k in [1.0f64, 2.0, 3.0, 7.0, 12.0] {
+        for eps in [0.25f64, 0.5, 0.999] {
+            fs.push((2_136_000_000.0 + eps) / k);
+            fs.push(-(2_136_000_000.0 + eps) / k);
+        }
+    }
     for x in [3.0f64, 7.0, 1e6, 86_400e6] {
         fs.push(2_136_000_000.0 / x);
         fs.push(8.64e18 / x);
